@@ -1,7 +1,15 @@
 import Qentem.Model.Hash
 import Qentem.Model.HashTable
 import Qentem.Model.HashTableSpec
-/-! C13 — the hash array is an insertion-ordered map under every operation sequence. -/
+import Qentem.Proofs.HashTableRefine
+/-!
+C13 — the hash array is an insertion-ordered map under every operation sequence.
+
+Layout model: `Qentem.HashTable` (`Model/HashTable.lean`); specification: slots
+(`Model/HashTableSpec.lean`).  Every theorem is for an arbitrary hash function `H` with
+`∀ k, H k ≠ 0` - colliding hashes at every capacity are covered by the quantifier - and an
+arbitrary value type.
+-/
 namespace Qentem.Props.C13
 open Qentem.Hash Qentem.HashTable
 
@@ -21,5 +29,62 @@ theorem hash_top_bit (conv : Nat → Nat) (k : List Nat) : (hashWith conv k).tes
   decide
 
 theorem hashChar_ne_zero (k : List Nat) : hashChar k ≠ 0 := hash_ne_zero _ k
+
+/-! ### Invariant -/
+
+/-- The default-constructed table satisfies the invariant. -/
+theorem inv_empty {V : Type} (H : List Nat → Nat) : Inv H (HT.empty : HT V) := Qentem.HashTable.inv_empty H
+
+/-- `find` never exhausts its fuel and never reads out of range under the invariant. -/
+theorem find_fuel {V : Type} {H : List Nat → Nat} (hH : ∀ k, H k ≠ 0) {s : HT V} (hI : Inv H s)
+    (hcap : s.cap ≠ 0) (key : List Nat) : ∃ r, find s key (H key) = some r := by
+  obtain ⟨ch, hc⟩ := hI.chains
+  have hk : ∃ k, s.cap = 2 ^ k := by
+    rcases hI.cap_pow with h | h
+    · exact absurd h hcap
+    · exact h
+  rcases key_cases s key with ⟨j, it, hit, hl, rfl⟩ | hno
+  · obtain ⟨pre, post, _, hfind⟩ := find_some hI hc hH hit hl
+    exact ⟨_, hfind⟩
+  · exact ⟨_, find_none hc hH hk hno⟩
+
+/-- One step (insert, get-or-create, assignment, lookup by key / index, removal by key / index,
+Reserve, Resize, Expect, Compress, Clear, Reset, copy, move): no fault, the invariant is kept, the
+abstract state and the output are those of the slot specification. -/
+theorem inv_step_refine_step {V : Type} [Inhabited V] {H : List Nat → Nat} (ord : Nat → Nat) (hH : ∀ k, H k ≠ 0)
+    {s : HT V} (hI : Inv H s) (op : Op V) (hop : op.Proved) :
+    ∃ s' o, step H ord s op = some (s', o) ∧ Inv H s' ∧ (abs s', o) = Spec.step ord (abs s) op :=
+  step_refines ord hH hI op hop
+
+/-- Full-strength statement: every finite operation sequence from the empty table runs without a
+fault, ends in a state satisfying the invariant, and its slot view and all its outputs are those
+of the specification. -/
+def reachable_refines : Prop :=
+  ∀ (V : Type) [Inhabited V] (H : List Nat → Nat) (ord : Nat → Nat), (∀ k, H k ≠ 0) →
+    ∀ ops : List (Op V), ∃ s' os, run H ord HT.empty ops = some (s', os) ∧ Inv H s' ∧
+      (abs s', os) = Spec.run ord Spec.empty ops
+
+/-- Proved for all sequences over the operations listed in `inv_step_refine_step`; what is missing
+for `reachable_refines` is the step lemma for `Rename`, `Sort` and `operator+=`. -/
+theorem reachable_refines_partial {V : Type} [Inhabited V] (H : List Nat → Nat) (ord : Nat → Nat)
+    (hH : ∀ k, H k ≠ 0) (ops : List (Op V)) (hops : ∀ op ∈ ops, op.Proved) :
+    ∃ s' os, run H ord HT.empty ops = some (s', os) ∧ Inv H s' ∧ (abs s', os) = Spec.run ord Spec.empty ops :=
+  run_refines ord hH ops (Qentem.HashTable.inv_empty H) hops
+
+/-! Non-vacuity: a hash function with two values (every key collides at every capacity), a run that
+inserts, removes, re-inserts after growth and looks up; the hypotheses hold and the state is not
+trivial. -/
+def exH (k : List Nat) : Nat := k.sum % 2 + 1
+def exOps : List (Op Nat) :=
+  [.insert [1] 5, .insert [2] 6, .insert [3] 7, .remove [2], .insert [5] 9, .lookup [3]]
+
+example : ∀ k, exH k ≠ 0 := by intro k; unfold exH; omega
+example : ∀ op ∈ exOps, op.Proved := by simp [exOps, Op.Proved]
+example : ((run exH id (HT.empty : HT Nat) exOps).map fun r => (r.1.items.size, r.1.cap)) = some (4, 4) := by
+  decide +kernel
+example : ∃ s' os, run exH id (HT.empty : HT Nat) exOps = some (s', os) ∧ Inv exH s' :=
+  let ⟨s', os, h, hI, _⟩ := reachable_refines_partial exH id (by intro k; unfold exH; omega) exOps
+    (by simp [exOps, Op.Proved])
+  ⟨s', os, h, hI⟩
 
 end Qentem.Props.C13
